@@ -1,5 +1,6 @@
 //! Independent reference model written from spec/Candid.md. Shares no code
 //! with candid / candid_parser.
+pub mod rcheck;
 pub mod rcoerce;
 pub mod rleb;
 pub mod rprincipal;
